@@ -236,7 +236,7 @@ prop("C10",
      assumptions=[])
 _c10_pairs = [(0, 0), (1, 0), (1, 1), (8, 1), (9, 1), (10, 1), (16, 2), (17, 2), (18, 2), (5, 0), (25, 3), (24, 3), (26, 3), (33, 4), (40, 4), (40, 5), (40, 0), (3, 255), (40, 255), (40, 128)]
 for l, c in _c10_pairs:
-    add("C10", H("column", "c10_n1_unpack_l%d_c%d" % (l, c), "quick" if (l, c) in ((9, 1), (17, 2), (3, 255), (26, 3)) else "thorough", ["C10.N1"],
+    add("C10", H("column", "c10_n1_unpack_l%d_c%d" % (l, c), "quick" if (l, c) in ((9, 1), (17, 2), (26, 3), (40, 5)) else "thorough", ["C10.N1"],
                  "node bytes [u8;40]; length %d, trailing count byte %d" % (l, c), "unwind 42", 1500, 10, unwind=42, stubs=FMT_STUB))
 
 # ======================================================================================== C08 (mapsub build)
@@ -394,7 +394,7 @@ add("C09", H("column", "c09_r_drop_index_restarts_progress", "quick", ["C09.R"],
 IOSUB = ["model: payload of Error::Io / Error::Locked reduced to its ErrorKind (crate::verif_io::IoErr; parity-db only inspects kind()); the drop glue of std::io::Error is not explored"]
 CRCU = ["stub: crc32fast::Hasher::{update, finalize} -> uninterpreted checksum (one fixed arbitrary u32); the real CRC is used in C13.P1b and c13_p3_enact_logs_validation_gate"]
 for fn, tier in (("begin_end", "quick"), ("begin_begin", "thorough"), ("begin_insert_value", "quick"), ("begin_insert_index", "thorough"), ("begin_drop_table", "quick"), ("begin_unknown_tag", "thorough"),
-                 ("begin_only", "quick"), ("begin_torn", "thorough"), ("begin_end_torn", "quick"), ("starts_with_end", "quick"), ("starts_with_insert", "thorough"), ("empty_file", "thorough")):
+                 ("begin_only", "quick"), ("begin_torn", "thorough"), ("begin_end_torn", "quick"), ("starts_with_end", "thorough"), ("starts_with_insert", "thorough"), ("empty_file", "thorough")):
     add("C13", H("db", "c13_p3g_gate_" + fn, tier, ["C13.P3"], "log bytes other than the two action tags (record number, table ids, stored checksum, payload), last_enacted:u64, checksum value:u32",
                  "record shape (action tags, truncation offset) as named; database without columns; one enact_logs(validation) call; unwind 20", 1500, 10, variant="iosub", unwind=20,
                  stubs=ENV + FILEREAD + IOSUB + CRCU, replay="solver-trace-only"))
@@ -532,6 +532,34 @@ add("C12", H("file", "c12_f1_table_flush_syncs_whole_map", "quick", ["C12.F"], "
              stubs=LOCK_STUBS + ["stub: memmap2::MmapMut::{flush, flush_async, flush_range, flush_async_range} -> record (synchronous?, offset, length), fail nondeterministically (msync is FFI)",
                                  "model: MmapMut fabricated over a 64-byte static buffer ({ptr, len} layout asserted through len())"], replay="solver-trace-only"))
 PROPS["C12"]["functions"] += ["TableFile::flush (one synchronous msync over the whole mapping; failure reported)"]
+
+# ---- C07.R4 / C14.T2c: last dereference releases the whole chain
+CRC = ["stub: ValueTable::change_ref -> 'the counter was 1: returns false' (C07.R1 decides the real function for every counter value)"]
+for fn, tier in (("c07_r4_last_dereference_frees_chain_len27", "quick"), ("c07_r4_last_dereference_frees_chain_len49", "thorough"), ("c07_r4_last_dereference_frees_chain_len71", "thorough"), ("c07_r4_last_dereference_frees_single_len8", "thorough")):
+    for pid in ("C07", "C14"):
+        add(pid, H("table", fn, tier, ["C07.R4", "C14.T2c"], "value bytes, compressed flag; the specified layout of a value of the named length with counter 1 at scattered slots of a ref-counted table",
+                   "32-byte parts, <= 4 parts; one write_dec_ref call; unwind 102", 900, 4, unwind=102, stubs=ENV + OVERLAY + TFILE + CRC, replay="solver-trace-only"))
+PROPS["C07"]["functions"] += ["ValueTable::write_dec_ref (the value's whole chain is released when the count is exhausted)"]
+# ---- C10.X: existing children
+add("C10", H("column", "c10_x_existing_children_are_counted", "quick", ["C10.X"], "two child addresses:u64, append_only and ref_counted options", "one claim_children_to_data call over two Existing children; unwind 10", 600, 3,
+             variant="mapsub", unwind=10, stubs=ENV + MAPSUB, replay="solver-trace-only"))
+_ms("C10")
+PROPS["C10"]["functions"] += ["HashColumn::claim_children_to_data (Existing children: address packing, one IncrementReference each unless append-only)"]
+# ---- C04.E / C04.S1: the real tree cursor, one step from an arbitrary position
+add("C04", H("btree::iter", "c04_e_exit_forward", "quick", ["C04.E"], "separators of the inner node n in 1..=8, finished child c in 0..=n", "stack of one inner node and one leaf; one exit call; unwind 10", 600, 3, unwind=10, stubs=ENV, replay="solver-trace-only"))
+add("C04", H("btree::iter", "c04_e_exit_backward", "quick", ["C04.E"], "as forward", "one exit call; unwind 10", 600, 3, unwind=10, stubs=ENV, replay="solver-trace-only"))
+PROPS["C04"]["functions"] += ["btree::iter::BTreeIterState::exit (every node size 1..=8 and every finished child)"]
+
+add("C10", H("column", "c10_n2_root_256_existing_children_rejected", "quick", ["C10.N2"], "none (256 existing children)", "unwind 260", 900, 4, variant="mapsub", unwind=260, stubs=ENV + MAPSUB, replay="solver-trace-only"))
+_ms("C10")
+
+# ---- C13.V: dispatch of a record's actions to the tables of a hash column
+VPC = ["stub: IndexTable::validate_plan, ValueTable::validate_plan, RefCountTable::validate_plan -> record (table, page/slot); C13.P2 decides the real functions"]
+for fn, tier in (("c13_v_ref_count_action_without_table", "quick"), ("c13_v_index_action_too_old", "quick"), ("c13_v_index_action_current", "thorough"), ("c13_v_index_action_queued", "thorough"),
+                 ("c13_v_value_action", "thorough"), ("c13_v_marker_and_drop_actions", "quick")):
+    add("C13", H("column", fn, tier, ["C13.V"], "page / slot number:u64, index size or size tier of the table named by the action", "hash column with an 18-bit index (queued 16/17-bit indexes where named), 3 value tables, no ref-count table; one validate_plan call; unwind 12",
+                 900, 4, unwind=12, stubs=ENV + VPC, replay="solver-trace-only"))
+PROPS["C13"]["functions"] += ["HashColumn::validate_plan (dispatch: unknown / too old / missing tables are Corruption, never a panic)"]
 
 # ---- memory classes from measurement: the registered class is an upper bound chosen before the harness was ever run; where a
 # run on the unchanged tree recorded the peak resident memory of the whole process group (lib/measured_rss_mb.json, refreshed
